@@ -115,9 +115,24 @@ func pkColumns(schema *sdb.Schema, ind *sdb.SchemaIndex) []int {
 		panic("can't call pkColumns on a rowid table")
 	}
 
+	collate := func(c string) string {
+		if c == "" {
+			return "binary"
+		}
+		return strings.ToLower(c)
+	}
 	var res []int
 	for _, c := range schema.PK {
-		if in := ind.Column(c.Column); in < 0 {
+		// SQLite leaves out a primary key column only if the index already
+		// has that column with the same collation
+		in := -1
+		for i, ic := range ind.Columns {
+			if strings.EqualFold(ic.Column, c.Column) && collate(ic.Collate) == collate(c.Collate) {
+				in = i
+				break
+			}
+		}
+		if in < 0 {
 			ind.Columns = append(ind.Columns, c)
 			res = append(res, len(ind.Columns)-1)
 		} else {
